@@ -91,6 +91,7 @@ type KeySpec struct {
 	Hash     uint64 `json:"hash,omitempty"` // custom hasher only
 	Conflict uint64 `json:"conf,omitempty"`
 	StrB     []byte `json:"strb,omitempty"` // string kinds: the key's bytes (nil: "k<Int>")
+	Empty    bool   `json:"empty,omitempty"` // string kinds: the empty key (a separate flag: empty bytes do not survive the replay file)
 }
 
 // ShouldUpdate rules.
@@ -473,6 +474,10 @@ func GenPlan(profName string, seed uint64) *Plan {
 		for i := range c.Keys {
 			c.Keys[i].Int = uint64(i*13+1) % 251
 		}
+	}
+	if stringKind(c.KeyKind) && g.p(120) {
+		// the shortest key there is: "" / an empty []byte
+		c.Keys[g.n(len(c.Keys))].Empty = true
 	}
 	if c.Hasher == HashDefault && !stringKind(c.KeyKind) && g.p(120) {
 		// the ends of the key type's range: the key whose hash is 0 (the zero
